@@ -16,9 +16,9 @@ Next == /\ Len(S) < MaxN
         /\ \E s \in Status : s.id = Len(S) + 1 /\ S' = Append(S, s)
 Spec == Init /\ [][Next]_S
 
-NeedKeys == <<"", "c", "cf", "cv", "cfv", "s">>
+NeedKeys == <<"", "c", "cf", "cv", "cfv", "s", "sc">>
 NeedSet(k) == CASE k = "" -> {} [] k = "c" -> {"c"} [] k = "cf" -> {"c", "f"} [] k = "cv" -> {"c", "v"}
-                [] k = "cfv" -> {"c", "f", "v"} [] k = "s" -> {"anyrow"}
+                [] k = "cfv" -> {"c", "f", "v"} [] k = "s" -> {"anyrow"} [] k = "sc" -> {"c", "anyrow"}
 KeyOf(needs) == CHOOSE k \in Range(NeedKeys) : NeedSet(k) = needs
 
 OpSeq == IdxN(Len(OpNames), LAMBDA k : OpNames[k] \in RunOps)
